@@ -191,7 +191,7 @@ def compare_model(ctx, cfg, pa, run, init, steps, ans, inp):
     exp = [init["nsel"]]
     B = init["score"]
     d = np.asarray(cfg["X"]).shape[1]
-    for t in range(len(alphas)):
+    for t in range(min(len(alphas), len(nfeat), len(gem))):   # malformed histories are the oracle's business, not a crash
         c = int(nfeat[t])
         exp += [c]
         if gem[t] >= B:
@@ -364,7 +364,10 @@ def run(ctx):
             if m["exit"] != "unboundScore" or m["clfalpha"] != sl.hx(run_["alpha_after"]):
                 ctx.corr_break("path-unbound", inp, {"impl": ["UnboundLocalError", sl.hx(run_["alpha_after"])], "model": ans[:200]})
             continue
-        compare_model(ctx, cfg, pa, run_, init, steps, ans, inp)
+        try:
+            compare_model(ctx, cfg, pa, run_, init, steps, ans, inp)
+        except (IndexError, KeyError, ValueError) as e:
+            ctx.corr_break("path-bookkeeping", inp, {"comparison failed": f"{type(e).__name__}: {e}"})
     ctx.notes.append("outer-loop termination is proved only under the stated hypothesis on the observed counts (path_terminates_if_count_drops_partial); "
                      "alpha = 0 keeps alpha*m^t = 0 (alpha_zero_stays_zero) and is reported by the bounded probe")
     ctx.assumptions.append("the trace recorded by wrapping compute_val_score/_update_weights/_n_selected_features is what _path observed "
